@@ -367,7 +367,7 @@ PROPS["C14"] = dict(
 _TSAN_ENV = {"TSAN_OPTIONS": "halt_on_error=0:exitcode=0:suppress_equal_stacks=0:suppress_equal_addresses=0:report_signal_unsafe=0:history_size=4:second_deadlock_stack=0"}
 PROPS["C18"] = dict(
     harness="C18_threads.cpp", level="exploration", config="plainthr", wrap_alloc=False, confirm_runs=3,
-    mode_config={"refcount": "plainthr", "refcount_tsan": "tsanthr", "seed": "plainthr"}, replay_env=_TSAN_ENV,
+    mode_config={"refcount": "plainthr", "refcount_tsan": "tsanthr", "refcount_asan": "asanthr", "seed": "plainthr"}, replay_env=_TSAN_ENV,
     technique="generated thread programs on CPU-pinned workers with an invariant over the history (exact final reference counts, destroy-exactly-once, put()==1 exactly once per node, private-tree results) in a plain threaded build, ThreadSanitizer's happens-before race detection on the same programs in a -fsanitize=thread build, each run validated by a canary race; seed publication with a harness-owned schedule (the tree's own OVERRIDE_GET_RANDOM_SEED hook holds all threads inside the initialisation branch with different candidate seeds) in a fresh process per trial",
     level_text="N=2..16 pinned threads start from a spin barrier and run generated get/put/read patterns on 1..4 shared nodes (each thread also owns a "
                "pre-acquired reference it releases last; the main thread releases its reference concurrently or last), optionally interleaved with building, "
@@ -379,11 +379,13 @@ PROPS["C18"] = dict(
     rule="one generated thread program (or one seed trial); counted only when its canary proved real concurrency (refcount) or at least two threads were inside the seed initialisation together (seed); distinct by hash of the program / trial parameters",
     quick=[dict(mode="refcount", cases=24, workers=1, config="plainthr"),
            dict(mode="refcount_tsan", cases=24, workers=1, config="tsanthr", env=_TSAN_ENV),
+           dict(mode="refcount_asan", cases=12, workers=1, config="asanthr"),
            dict(mode="seed", cases=200, workers=1, config="plainthr")],
     thorough=[dict(mode="refcount", cases=400, workers=1, config="plainthr"),
               dict(mode="refcount_tsan", cases=500, workers=1, config="tsanthr", env=_TSAN_ENV),
+              dict(mode="refcount_asan", cases=200, workers=1, config="asanthr"),
               dict(mode="seed", cases=2000, workers=1, config="plainthr")],
-    min_labels=dict(quick=dict(canary_ok=30, seed_race_all_threads=100)),
+    min_labels=dict(quick=dict(canary_ok=40, seed_race_all_threads=100, cold_start_from_count_1=10)),
     assumptions=["HAVE_ATOMIC_BUILTINS as configured by cmake for this tree; -DENABLE_THREADING=1 selects the __sync paths",
                  "a fault that needs one specific interleaving that is neither a data race nor likely under contention can be missed"],
 )
